@@ -117,3 +117,13 @@ Theorem C08_records_iterator : forall msg nq an ns ar qs rs e1 e2, parsed msg nq
   h_qd h <= 65535 -> h_an h = an -> h_ns h = ns -> h_ar h = ar -> lenN qs = nq ->
   iter_items msg nq an ns ar 0 rs = Some l -> iter_records msg h e1 = Ok (l, None).
 Proof. exact iter_records_any. Qed.
+
+(* ... and in general ([iter_walk]): the records of known type and class up to the first one whose
+   owner exceeds 255 octets, whose data does not decode, or whose type has no typed decoder (OPT,
+   meta types) — then the end if there was no such record, and otherwise that record's error *)
+Theorem C08_records_iterator_general : forall msg nq an ns ar qs rs e1 e2, parsed msg nq an ns ar qs rs e1 e2 ->
+  forall h, lenN rs = an + ns + ar ->
+  h_qd h <= 65535 -> h_an h = an -> h_ns h = ns -> h_ar h = ar -> lenN qs = nq ->
+  exists stop, iter_records msg h e1 = Ok (fst (iter_walk msg nq an ns ar 0 rs), stop) /\
+               (snd (iter_walk msg nq an ns ar 0 rs) = true <-> stop = None).
+Proof. exact iter_records_walk_any. Qed.
